@@ -234,6 +234,17 @@ def text_mutants(src, rng):
                           ("typedef-list-element-of-base-type", "Die Hausnummer Liste hl ist eine Liste, die aus 1, 2 besteht.\n"),
                           ("typedef-operand-of-builtin-operator", "Die Zahl s_td ist hn_ok plus 1.\n")]:
         out.append((kind, src + TD + snippet))
+    # the result of a function that returns nothing is a value of no type: wrong in every position
+    NF = ("Die Funktion tue_nichts gibt nichts zurück, macht:\n\tDie Zahl lokal_n ist 1.\nUnd kann so benutzt werden:\n\t\"tue nichts\"\n"
+          "Die Variable var_n ist 1.\nDie Zahl zahl_n ist 1.\n")
+    for kind, snippet in [("nichts-assigned-to-variable", "Speichere (tue nichts) in var_n.\n"), ("nichts-assigned-to-zahl", "Speichere (tue nichts) in zahl_n.\n"),
+                          ("nichts-initialiser-of-variable", "Die Variable var_m ist (tue nichts).\n"), ("nichts-operand", "Die Zahl zahl_m ist (tue nichts) plus 1.\n"),
+                          ("nichts-list-element", "Die Variablen Liste vl_n ist eine Liste, die aus (tue nichts) besteht.\n"),
+                          ("nichts-condition", "Wenn (tue nichts), dann:\n\tSpeichere 2 in zahl_n.\n"),
+                          ("nichts-returned", "Die Funktion gib_n gibt eine Variable zurück, macht:\n\tGib (tue nichts) zurück.\nUnd kann so benutzt werden:\n\t\"gib_n\"\n"),
+                          ("nichts-repeat-count", "Wiederhole:\n\tSpeichere 2 in zahl_n.\n(tue nichts) Mal.\n"),
+                          ("nichts-cast", "Die Zahl zahl_m ist (tue nichts) als Zahl.\n")]:
+        out.append((kind, src + NF + snippet))
     out.append(("return-outside-function", src + "Gib 1 zurück.\n"))
     out.append(("condition-not-wahrheitswert", src + "Wenn 1, dann:\n\tSchreibe 1.\n"))
     return out
